@@ -61,6 +61,11 @@ static void do_dump(void *obj, dump_fn df, len_fn lf, const char *btok) {
     }
 }
 
+/* setters called after creation: S:<hex ssid> (beacon, probe response), C:<channel> (those and the two responses) */
+static int (*set_ssid_fn)(void *, const char *) = NULL;
+static int (*set_chan_fn)(void *, uint8_t) = NULL;
+static void *set_obj = NULL;
+
 static int add_extras(struct libwifi_tagged_parameters *tags, int nt, char **t, int from) {
     int r = 0;
     for (int i = from; i < nt - 1; i++) {
@@ -70,6 +75,8 @@ static int add_extras(struct libwifi_tagged_parameters *tags, int nt, char **t, 
             while (tags->length > 0 && guard++ < 100000) { int num = tags->parameters[0]; LIB(libwifi_remove_tag(tags, num)); }
             continue;
         }
+        if (o[0] == 'S' && o[1] == ':' && set_ssid_fn) { char *z = cstr_tok(o + 2); int rr; LIB(rr = set_ssid_fn(set_obj, z)); if (rr != 0) r = rr; hfree(z); continue; }
+        if (o[0] == 'C' && o[1] == ':' && set_chan_fn) { int rr; LIB(rr = set_chan_fn(set_obj, (uint8_t) tok_ll(o + 2))); if (rr != 0) r = rr; continue; }
         if (o[0] != 'A') continue;
         char *c2 = strchr(o + 2, ':'); *c2 = 0;
         size_t n; unsigned char *b = hexbuf(c2 + 1, &n);
@@ -85,13 +92,18 @@ static int add_extras(struct libwifi_tagged_parameters *tags, int nt, char **t, 
         struct T o; memset(&o, prefill, sizeof o); int r; \
         LIB(r = CREATE); \
         printf("gen %d", r); \
-        if (r == 0) { int er = add_extras(&o.tags, nt, t, 12); if (er) printf(" extras=%d", er); \
+        if (r == 0) { set_obj = &o; int er = add_extras(&o.tags, nt, t, 12); if (er) printf(" extras=%d", er); \
             do_dump(&o, (dump_fn) DUMP, (len_fn) LEN, t[nt - 1]); } \
         LIB(FREE(&o)); \
     } while (0)
 
 static void op_gen(int nt, char **t) {
     const char *k = t[1];
+    set_ssid_fn = NULL; set_chan_fn = NULL;
+    if (!strcmp(k, "beacon")) { set_ssid_fn = (int (*)(void *, const char *)) libwifi_set_beacon_ssid; set_chan_fn = (int (*)(void *, uint8_t)) libwifi_set_beacon_channel; }
+    else if (!strcmp(k, "probe_resp")) { set_ssid_fn = (int (*)(void *, const char *)) libwifi_set_probe_resp_ssid; set_chan_fn = (int (*)(void *, uint8_t)) libwifi_set_probe_resp_channel; }
+    else if (!strcmp(k, "assoc_resp")) set_chan_fn = (int (*)(void *, uint8_t)) libwifi_set_assoc_resp_channel;
+    else if (!strcmp(k, "reassoc_resp")) set_chan_fn = (int (*)(void *, uint8_t)) libwifi_set_reassoc_resp_channel;
     unsigned char *a1 = mac(t[2]), *a2 = mac(t[3]), *a3 = mac(t[4]);
     clk_sec = CLK_SEC; clk_nsec = CLK_NSEC;
     if (!strcmp(k, "beacon")) { char *ss = cstr_tok(t[5]);
